@@ -102,6 +102,7 @@ items += [
     Struct(F_CAST, 'ComparableAst', derive=[]),
     Struct(F_CC, 'CharacterClass', derive=[]),
     Struct(F_REG, 'CharacterClassRegistry', derive=[]),
+    RawFile('../common/cls_built.rs'),
     RawFile('reg_spec.rs'),
     cast_eq, cc_ast, create,
 ]
